@@ -336,7 +336,7 @@ func roundTrip(t *core.T, ls mvt.Layers) (data []byte, ok bool) {
 
 func drawLayers(t *core.T) mvt.Layers {
 	s := t.Src
-	o := gen.LayerOpts{NilGeoms: true, Collections: s.Chance(1, 4, "collections")}
+	o := gen.LayerOpts{NilGeoms: true, Repetitive: true, Collections: s.Chance(1, 4, "collections")}
 	ls := gen.Layers(s, o)
 	t.Logf("layers: %s", gen.DescribeLayers(ls))
 	return ls
